@@ -12,6 +12,15 @@ of what the two rule engines say about a name):
                          rule or a hosts-style line
 * service-blocked name — not allowed, not rule-blocked … and a rule of an applied blocked service matches
 
+* answered before the rules — a legacy rewrite applies to the name (the C06 model decides), or the
+                         hosts container knows it; both only while filtering is on for the client
+* blocked by another checker — safe browsing / parental says "block" for a name the rules neither
+                         allow nor block (their verdicts are oracles, C19)
+
+The properties' claims are stated for rule and service blocks and for names
+"matched by nothing"; what rewrites, the hosts container, safe browsing and
+parental do is modelled and compared, but the specs make no claim there.
+
 `C01.check` / `C02.check` take the observed outcome of one request and return
 `none` (conforms) or `some reason-class`.  The driver evaluates them on the
 IMPLEMENTATION's outcome.
@@ -94,10 +103,44 @@ def reserved (c : Conf) (q : Query) : Bool :=
   ((q.qtype == tA || q.qtype == tAAAA) && q.name == mozillaFQDN) ||
   q.name == healthcheckFQDN
 
-/-- C01's antecedent: protection and filtering on, the name matches an enabled
-blocking rule or blocked service and no higher-priority allow rule. -/
+/-- per-client vs global safe browsing / parental switches -/
+def sbConfigured (c : Conf) : Bool :=
+  match c.client with
+  | some cl => if cl.useOwnSettings then cl.safeBrowsing else c.sbEnabled
+  | none => c.sbEnabled
+
+def parentalConfigured (c : Conf) : Bool :=
+  match c.client with
+  | some cl => if cl.useOwnSettings then cl.parental else c.parentalEnabled
+  | none => c.parentalEnabled
+
+/-- a legacy rewrite applies to this name and type (decided by the C06 model) -/
+def legacyRewritten (e : Engines) (c : Conf) (host : Bytes) (qtype : Nat) : Bool :=
+  (C06.processRewritesWith e.srt c.rewrites host qtype).rewritten
+
+/-- the hosts container has something for this question: an address record for an
+A / AAAA query of a name it lists, a name for a PTR query of an address it lists -/
+def hostsKnows (e : Engines) (c : Conf) (host : Bytes) (qtype : Nat) : Bool :=
+  ((qtype == tA || qtype == tAAAA) && c.hosts.any (fun r => r.names.any (fun n => lower n == host))) ||
+  (qtype == tPTR && (match e.arpa host with
+    | some a => c.hosts.any (fun r => r.addr.same a && !r.names.isEmpty)
+    | none => false))
+
+/-- the name is answered before the rule engines are asked -/
+def precededByOther (e : Engines) (c : Conf) (q : Query) : Bool :=
+  filteringOn c && qhost q != [] &&
+  (legacyRewritten e c (qhost q) q.qtype || hostsKnows e c (qhost q) q.qtype)
+
+/-- safe browsing or parental blocks a name the rules have nothing to say about -/
+def otherBlocks (e : Engines) (c : Conf) (q : Query) : Bool :=
+  protectionOn c && qhost q != [] && !(filteringOn c && allowedName e c (qhost q) q.qtype) &&
+  ((sbConfigured c && e.sb (qhost q)) || (parentalConfigured c && e.parental (qhost q)))
+
+/-- C01's antecedent: protection and filtering on, no legacy rewrite or hosts
+entry answers the name first, the name matches an enabled blocking rule or
+blocked service and no higher-priority allow rule. -/
 def blockedByRules (e : Engines) (c : Conf) (q : Query) : Bool :=
-  protectionOn c && filteringOn c && qhost q != [] &&
+  protectionOn c && filteringOn c && qhost q != [] && !precededByOther e c q &&
   (ruleBlockedName e c (qhost q) q.qtype || serviceBlockedName e c (qhost q) q.qtype)
 
 /-- The property is silent about blocked services for a client whose filtering
@@ -209,6 +252,7 @@ namespace C01
 /-- Reason classes are stable tokens. -/
 def check (e : Engines) (c : Conf) (u : Upstream) (q : Query) (out : Outcome) : Option String :=
   if reserved c q then none
+  else if precededByOther e c q then none     -- rewrites / hosts container: modelled, not claimed
   else if blockedByRules e c q then
     match out with
     | .err => some "blocked-but-error"
@@ -228,6 +272,7 @@ def check (e : Engines) (c : Conf) (u : Upstream) (q : Query) (out : Outcome) : 
         -- blocked by a service although the client's filtering is off: must then be a proper block
         if syntheticOK c q [] m && (match qlog with | some l => l.isFiltered && l.reason == .blockedService | none => false)
         then none else some "service-block-wrong-response"
+      else if otherBlocks e c q then none     -- safe browsing / parental: modelled, not claimed
       else if log != [q] then some "not-forwarded-once"
       else if !(m.qname == q.name && m.qtype == q.qtype) then some "question-altered"
       else if respFilterApplies e c q && u.answer.any (offending e c) then
@@ -247,7 +292,8 @@ end C01
 namespace C02
 
 def check (e : Engines) (c : Conf) (u : Upstream) (q : Query) (out : Outcome) : Option String :=
-  if reserved c q || blockedByRules e c q || serviceMayBlock e c q then none      -- no upstream answer to speak of
+  if reserved c q || precededByOther e c q || blockedByRules e c q || serviceMayBlock e c q || otherBlocks e c q then
+    none      -- no upstream answer to the query to speak of, or rewritten (exempt)
   else
     match out with
     | .err => some "error"
